@@ -181,6 +181,20 @@ def run_case(ctx, case):
         ctx.violation("c15_not_transitive", {"kind": "instance"})
     via_dict = JobShopInstance.from_matrices(**A.to_dict())
     L.expect(A, via_dict, True, "dict round trip", None)
+    # constructor vs from_matrices (two builders, same content)
+    direct = JobShopInstance([[Operation(list(ms), dd) for ms, dd in zip(mj, dj)]
+                              for mj, dj in zip(inst["machines"], inst["durations"])])
+    L.expect(A, direct, True, "constructor vs from_matrices", None)
+    # work done on a deep copy (re-wrapped with another job layout, as the library's own
+    # transformations do) must leave the original equal to its twin
+    dup = copy.deepcopy(A)
+    jobs2 = list(dup.jobs)
+    if len(jobs2) > 1:
+        jobs2 = jobs2[1:] if rng.random() < 0.5 else jobs2[::-1]
+    JobShopInstance(jobs2, name="rewrapped copy")
+    L.expect(A, B, True, "after a deep copy was re-wrapped", None)
+    L.expect(opsA[-1], opsB[-1], True, "operation after a deep copy was re-wrapped", None)
+    ctx.count("deepcopy_rewrap_checks")
 
     # ---------------------------------------------------------------- scheduled ops / schedules
     run = Run(inst)
